@@ -124,7 +124,7 @@ def jobs(tier, seed):
     deltas = [60, -37] if tier == "quick" else [60, 0, -37, 30, 120, -60, 45]
     for lo in range(-1440, 1441, step):
         out.append({"kind": "zones", "lo": lo, "hi": min(lo + step, 1441), "deltas": deltas})
-    n = 1000 if tier == "quick" else 20000
+    n = 1000 if tier == "quick" else 8000
     for j in range(4 if tier == "quick" else 16):
         out.append({"kind": "epochs", "n": n, "seed": seed * 100 + j})
         out.append({"kind": "since", "n": n, "seed": seed * 100 + 50 + j})
